@@ -19,6 +19,11 @@
  * status = OK | CRASH sig=<n> | EXIT code=<n> | HANG
  */
 #include "coap3/coap_libcoap_build.h"
+/* the driver is linked with --wrap=malloc to see libcoap's direct malloc() calls (uthash); the
+ * driver's own allocations go straight to the C library */
+#define FA_WRAP_MALLOC 1
+void *__real_malloc(size_t n);
+#define malloc(n) __real_malloc(n)
 #include "common/util.h"
 #include "common/dump.h"
 #include "common/vnet.h"
@@ -1295,9 +1300,10 @@ static void wr(int fd, const char *s, size_t n) {
   }
 }
 
-static void child_main(const scen_t *sc, long k1, long k2, int want_sites, int fd) {
+static void child_main(const scen_t *sc, long k1, long k2, int want_sites, long uj, int fd) {
   char tmp[256];
   fa_notice_fd = fd;
+  fa_u_fail_at = uj;
   fa_nfail = 0;
   if (k1 > 0) fa_fail_at[fa_nfail++] = k1;
   if (k2 > 0) fa_fail_at[fa_nfail++] = k2;
@@ -1307,9 +1313,9 @@ static void child_main(const scen_t *sc, long k1, long k2, int want_sites, int f
   sc->fn();
   fa_armed = 0;
   fa_final_sweep();
-  int n = snprintf(tmp, sizeof(tmp), "D n=%ld inj=%d canary=%d guard=%ld poison=%ld live=%ld tm=%ld\n",
+  int n = snprintf(tmp, sizeof(tmp), "D n=%ld inj=%d canary=%d guard=%ld poison=%ld live=%ld tm=%ld un=%ld\n",
                    fa_attempts, fa_injected, canary_result, fa_guard_bad, fa_poison_bad, fa_live,
-                   fa_type_mismatch);
+                   fa_type_mismatch, fa_u_attempts);
   wr(fd, tmp, (size_t)n);
   /* what is still allocated: id:type:size (naming a leak in the report) */
   wr(fd, "K ", 2);
@@ -1399,7 +1405,12 @@ static void run_fa(void) {
     return;
   }
   long k1 = atol(vtok[2]), k2 = atol(vtok[3]);
-  int want_sites = vntok > 4 && strcmp(vtok[4], "S") == 0;
+  int want_sites = 0;
+  long uj = 0;        /* U<j>: fail the j-th direct malloc() of libcoap (uthash) */
+  for (int i = 4; i < vntok; i++) {
+    if (strcmp(vtok[i], "S") == 0) want_sites = 1;
+    else if (vtok[i][0] == 'U') uj = atol(vtok[i] + 1);
+  }
   int pfd[2];
   if (pipe(pfd) < 0) {
     printf("ERROR pipe\n");
@@ -1409,7 +1420,7 @@ static void run_fa(void) {
   pid_t pid = fork();
   if (pid == 0) {
     close(pfd[0]);
-    child_main(sc, k1, k2, want_sites, pfd[1]);
+    child_main(sc, k1, k2, want_sites, uj, pfd[1]);
     _exit(0);
   }
   close(pfd[1]);
@@ -1467,7 +1478,7 @@ static void run_fa(void) {
     }
     if (first) printf("-");
   }
-  printf(" %s", d ? d : "n=? inj=? canary=? guard=? poison=? live=? tm=?");
+  printf(" %s", d ? d : "n=? inj=? canary=? guard=? poison=? live=? tm=? un=?");
   printf(" leaked=%s", kk ? kk : "?");
   printf(" sends=%s", s ? s : "?");
   printf(" res=");
